@@ -12,7 +12,7 @@ RULE = (
     "Non-trivial = at least one body needed more than one block; distinct = distinct parameter tuples with lengths classified relative to the block size (below/at/above a boundary, number of blocks)"
 )
 ASSUMPTIONS = ["default TransportTuning; one-way latency 1 ms", "with random loss a transfer may legitimately fail with a time-out: such failures are counted, not judged"]
-REQUIRED_MONITORS = {"request_body": 200, "response_body": 200, "block1_options": 150, "block2_options": 150, "misbehaving_server": 60, "negotiation": 60}
+REQUIRED_MONITORS = {"refused_upload": 10, "request_body": 200, "response_body": 200, "block1_options": 150, "block2_options": 150, "misbehaving_server": 60, "negotiation": 60}
 
 LENGTHS = [0, 1, 15, 16, 17, 31, 32, 33, 63, 64, 65, 127, 128, 129, 255, 256, 257, 511, 512, 513, 1023, 1024, 1025, 1124, 1125, 2047, 2048, 2049, 5000, 20000]
 ETAG_MIS = ("etag-changes", "etag-vanishes", "etag-appears")
@@ -56,7 +56,18 @@ def gen(r, k, tier):
     mis_at = r.randrange(0, 3)
     if mis in ETAG_MIS:
         mis_at = r.randrange(1, 4)  # a change from the very first block on is a consistent representation, not a change
-    return {"method": method, "szx": szx, "cmax": cmax, "req_len": req_len, "resp_len": resp_len, "red1": red1, "red2": red2, "loss": loss, "mis": mis, "mis_at": mis_at, "etag": r.choice([True, True, False])}
+    fail1 = None
+    hint = False
+    if method != "GET" and mis is None:
+        if r.random() < 0.12:
+            fail1 = (r.randrange(0, 4), r.choice([rc_code(4, 13), rc_code(4, 1), rc_code(5, 0), rc_code(4, 8)]), r.random() < 0.5)
+        if r.random() < 0.15:
+            hint = True  # block size passed in through a Block1 option on the request (the older way) instead of the remote
+    return {"fail1": fail1, "hint": hint, "method": method, "szx": szx, "cmax": cmax, "req_len": req_len, "resp_len": resp_len, "red1": red1, "red2": red2, "loss": loss, "mis": mis, "mis_at": mis_at, "etag": r.choice([True, True, False])}
+
+
+def rc_code(cls, detail):
+    return (cls << 5) | detail
 
 
 def lenclass(n, size):
@@ -79,11 +90,20 @@ def run_case(p, seed, rep, case):
     async def main(loop):
         pol = simnet.RandomPolicy(random.Random(seed + 1), **p["loss"]) if p["loss"] else simnet.Policy()
         net = simnet.SimNet(loop, pol)
-        srv = refblock.BlockServer(net, "10.0.0.1", 5683, szx=p["szx"], representation=rep_body, etag=b"" if p["mis"] == "etag-appears" else b"v1" if (p["etag"] or p["mis"] in ETAG_MIS) else b"", reduce_block1_at=p["red1"], reduce_block2_at=p["red2"], misbehave=p["mis"], misbehave_at=p["mis_at"])
+        srv = refblock.BlockServer(net, "10.0.0.1", 5683, szx=p["szx"], representation=rep_body, etag=b"" if p["mis"] == "etag-appears" else b"v1" if (p["etag"] or p["mis"] in ETAG_MIS) else b"", reduce_block1_at=p["red1"], reduce_block2_at=p["red2"], misbehave=p["mis"], misbehave_at=p["mis_at"], fail_block1_at=p.get("fail1"))
         cli = await simnet.make_context(net, "10.0.0.2", 40001, None, server=False)
         m = aiocoap.Message(code=getattr(aiocoap, p["method"]), uri="coap://10.0.0.1/res", payload=req_body)
-        m.remote.maximum_block_size_exp = p["cmax"]
-        rq = cli.request(m)
+        if p.get("hint"):
+            from aiocoap.optiontypes import BlockOption
+
+            m.opt.block1 = BlockOption.BlockwiseTuple(0, False, p["cmax"])
+        else:
+            m.remote.maximum_block_size_exp = p["cmax"]
+        import warnings
+
+        with warnings.catch_warnings():
+            warnings.simplefilter("ignore", DeprecationWarning)
+            rq = cli.request(m)
         try:
             resp = await rq.response
             out = ("response", int(resp.code), bytes(resp.payload))
@@ -161,12 +181,13 @@ def judge(p, box, req_body, rep_body, res, rep, case):
             if last is not None and szx > last:
                 rep.violation("block2/szx-grew", "the client's Block2 size exponent grew during a transfer", wit(at=s["b2"]), case)
                 break
-            if szx > p["cmax"]:
+            # a size passed in through the request's Block1 option is a hint for the request body only
+            if szx > (6 if p.get("hint") else p["cmax"]):
                 rep.violation("block2/exceeds-client-maximum", "the client asked for blocks larger than its own maximum block size", wit(at=s["b2"]), case)
                 break
             last = szx
         # contiguity of what was served to a conforming flow is visible in the final body comparison
-        if p["red2"] is not None or p["cmax"] < p["szx"]:
+        if p["red2"] is not None or (p["cmax"] < p["szx"] and not p.get("hint")):
             rep.monitor("negotiation")
     # ---- outcome ----
     kind = out[0]
@@ -184,12 +205,20 @@ def judge(p, box, req_body, rep_body, res, rep, case):
         else:
             rep.count("misbehaviour_not_manifested")
             judge_conforming(p, srv, out, req_body, rep_body, lossy, rep, case, wit)
+    elif p.get("fail1") and srv.failed_block1:
+        # the server refused one block of the upload: the caller must see that refusal (as a response with the
+        # server's code, or as a library error), never a success, and the server must not have been handed a body
+        rep.monitor("refused_upload")
+        if kind == "response" and out[1] != p["fail1"][1]:
+            rep.violation("refused-upload-not-reported", "the server refused a block of the upload with %s, but the request ended with %s" % (rc.code_str(p["fail1"][1]), rc.code_str(out[1])), wit(), case)
+        elif kind == "exception" and not isinstance(out[1], error.Error):
+            rep.violation("refused-upload-wrong-exception/" + type(out[1]).__name__, "the failure is not a library error", wit(), case)
     else:
         judge_conforming(p, srv, out, req_body, rep_body, lossy, rep, case, wit)
     if res.loop_exceptions:
         rep.violation("loop-exception/" + str(res.loop_exceptions[0].get("exc_type")), "an exception reached the event loop", wit(loop=res.loop_exceptions[:2]), case)
     size1 = 1 << (min(p["szx"], p["cmax"]) + 4)
-    sig = (p["method"], p["szx"], p["cmax"], lenclass(p["req_len"], size1), lenclass(p["resp_len"], size1), p["red1"] is not None, p["red2"] is not None, p["loss"] is not None, p["mis"], p["etag"])
+    sig = (p["method"], p["szx"], p["cmax"], lenclass(p["req_len"], size1), lenclass(p["resp_len"], size1), p["red1"] is not None, p["red2"] is not None, p["loss"] is not None, p["mis"], p["etag"], bool(p.get("fail1")), bool(p.get("hint")))
     rep.case(sig, nontrivial=len(b1reqs) > 1 or len(b2reqs) > 0)
 
 
